@@ -17,6 +17,9 @@
                                               named by token); rw / rt = fresh-protocol result for the whole datagram / for its
                                               first max_datagram_bufsize bytes: the model picks rw iff n <= the recv size
                  | L [A 9; B pkt]            send_packet(pkt) where serializing pkt raises: RuntimeError, no datagram
+                 | L [A 12]                  the asyncio transport is aborted (fatal error, no aclose()): modelled in this runner
+                                             only: what is queued is still delivered in order, then every receive fails
+                                             with the closed-transport error, printed L [A 6; A 1] (iterator: L [A 3])
                  | L [A 11]                  next() on the client's ONE iter_received_packets(timeout=0) iterator: like
                                              recv_packet, except that an OSError (nothing queued, socket error) ends that
                                              call with StopIteration -- printed L [A 3]; a parse error propagates and the
@@ -93,6 +96,7 @@ Fixpoint enc_lookup (t : list (bytes * bytes)) (p : bytes) : bytes :=
   end.
 
 Definition is_iter_op (x : sx) : bool := match x with L [A 11%Z] => true | _ => false end.
+Definition is_abort_op (x : sx) : bool := match x with L [A 12%Z] => true | _ => false end.
 
 Definition iter_sx (r : rres bytes) : sx :=
   match r with
@@ -103,6 +107,7 @@ Definition iter_sx (r : rres bytes) : sx :=
 Definition dec_op (x : sx) : option (op (Q := bytes)) :=
   match x with
   | L [A 11%Z] => Some OpRecv
+  | L [A 12%Z] => Some OpSendFail        (* placeholder, never executed: see [go] *)
   | L (A 0%Z :: B d :: _) => Some (OpArrive d)
   | L (A 1%Z :: B p :: _) => Some (OpSend p)
   | L (A 5%Z :: B p :: _) => Some (OpSend p)
@@ -133,17 +138,24 @@ Section Go.
   Variable bufsize : N.
   Variable drop_empty : bool.
 
-  Fixpoint go (t : transport) (ops : list (op (Q := bytes) * bool)) : list sx :=
+  Definition closed_sx (it : bool) (x : sx) : sx :=
+    match x with
+    | L [A 3%Z] | L [A 5%Z] => if it then L [A 3%Z] else L [A 6%Z; A 1%Z]
+    | _ => x
+    end.
+
+  Fixpoint go (closed : bool) (t : transport) (ops : list (op (Q := bytes) * (bool * bool))) : list sx :=
     match ops with
     | [] => []
-    | (o, it) :: r =>
+    | (_, (_, true)) :: r => L [] :: go true t r
+    | (o, (it, false)) :: r =>
         let '(t', rs) := do_op serialize deserialize (fun q => q) from_dto bufsize drop_empty t o in
         let out :=
           match o with
           | OpSend _ => map (fun d => L [A 4; B d]) (skipn (length (outq t)) (outq t'))
-          | _ => map (if it then iter_sx else rres_sx) rs
+          | _ => map (fun x => let y := (if it then iter_sx else rres_sx) x in if closed then closed_sx it y else y) rs
           end in
-        L out :: go t' r
+        L out :: go closed t' r
     end.
 End Go.
 
@@ -153,7 +165,7 @@ Definition run (i : sx) : sx :=
   match i with
   | L (A kind :: cfg :: L rawops :: _ :: A ep :: bo :: _) =>
       do ops0 <- map_opt dec_op rawops;
-      let ops := combine ops0 (map is_iter_op rawops) in
+      let ops := combine ops0 (combine (map is_iter_op rawops) (map is_abort_op rawops)) in
       do bopt <- as_opt as_Z bo;
       let de := Z.eqb ep 3 && async_transport_drops_empty in
       let bs := match bopt with
@@ -168,17 +180,17 @@ Definition run (i : sx) : sx :=
       | 0%Z, _ =>
           let tb := table_of bs rawops in
           let et := enc_table_of rawops in
-          L (go (enc_lookup et) (lookup tb) (fun p => Some p) bs de t0 ops)
+          L (go (enc_lookup et) (lookup tb) (fun p => Some p) bs de false t0 ops)
       | 1%Z, L [B sep; A limit; A ke; A dm; A cv] =>
           let F := ru_framer sep (Z.to_nat limit) (Z.eqb ke 1) (mk_dec dm) in
-          L (go (fun p => oneshot_serialize (until_parts sep p)) (oneshot_deserialize F) (mk_conv cv) bs de t0 ops)
+          L (go (fun p => oneshot_serialize (until_parts sep p)) (oneshot_deserialize F) (mk_conv cv) bs de false t0 ops)
       | 2%Z, L [A size; A dm; A cv] =>
           let F := rx_framer (Z.to_nat size) (mk_dec dm) in
-          L (go (fun p => oneshot_serialize (exact_parts p)) (oneshot_deserialize F) (mk_conv cv) bs de t0 ops)
+          L (go (fun p => oneshot_serialize (exact_parts p)) (oneshot_deserialize F) (mk_conv cv) bs de false t0 ops)
       | 3%Z, L [B sep; A ke; A asc] =>
-          L (go line_serialize (line_deserialize sep (Z.eqb ke 1) (Z.eqb asc 1)) (fun p => Some p) bs de t0 ops)
+          L (go line_serialize (line_deserialize sep (Z.eqb ke 1) (Z.eqb asc 1)) (fun p => Some p) bs de false t0 ops)
       | 4%Z, L [A n; A st] =>
-          L (go (struct_s_serialize (Z.to_nat n)) (struct_s_deserialize (Z.to_nat n) (Z.eqb st 1)) (fun p => Some p) bs de t0 ops)
+          L (go (struct_s_serialize (Z.to_nat n)) (struct_s_deserialize (Z.to_nat n) (Z.eqb st 1)) (fun p => Some p) bs de false t0 ops)
       | _, _ => bad_input
       end
   | _ => bad_input
